@@ -5,15 +5,27 @@
 use bio::alphabets::Alphabet;
 use bio::data_structures::bwt::{bwt, less, Less, Occ, BWT};
 use bio::data_structures::fmindex::{BackwardSearchResult, FMIndex, FMIndexable, Interval};
-use bio::data_structures::suffix_array::{suffix_array, SuffixArray};
+use bio::data_structures::suffix_array::{suffix_array, SampledSuffixArray, SuffixArray};
 use bio_verif_harness::{bytes, usizes, Log, Rng};
 use serde_json::json;
 use std::sync::Arc;
 
-fn searches<I: FMIndexable>(log: &mut Log, fm: &I, resolve: &dyn Fn(&Interval) -> Vec<usize>, pats: &[Vec<u8>]) {
-    for p in pats {
-        log.call("search", json!({"p": bytes(p)}), || {
-            let (kind, iv, len) = match fm.backward_search(p.iter()) {
+/// `backward_search` takes any double-ended iterator over &u8: the same pattern is handed over through
+/// iterators of different kinds (several of them report an inexact size hint). `it0` rotates the kind.
+fn searches<I: FMIndexable>(log: &mut Log, fm: &I, resolve: &dyn Fn(&Interval) -> Vec<usize>, pats: &[Vec<u8>], it0: usize) {
+    for (pi, p) in pats.iter().enumerate() {
+        let it = (it0 + pi) % 7;
+        log.call("search", json!({"p": bytes(p), "it": it}), || {
+            let res = match it {
+                0 => fm.backward_search(p.iter()),
+                1 => fm.backward_search(p.iter().filter(|_| true)),
+                2 => fm.backward_search(p.chunks(2).flatten()),
+                3 => fm.backward_search(p.iter().rev().rev()),
+                4 => fm.backward_search(p.iter().filter_map(|c| Some(c))),
+                5 => fm.backward_search(p.iter().flat_map(|c| std::iter::once(c))),
+                _ => fm.backward_search(p[..p.len() / 2].iter().chain(p[p.len() / 2..].iter())),
+            };
+            let (kind, iv, len) = match res {
                 BackwardSearchResult::Complete(iv) => (2, iv, p.len()),
                 BackwardSearchResult::Partial(iv, l) => (1, iv, l),
                 BackwardSearchResult::Absent => (0, Interval { lower: 0, upper: 0 }, 0),
@@ -21,6 +33,9 @@ fn searches<I: FMIndexable>(log: &mut Log, fm: &I, resolve: &dyn Fn(&Interval) -
             let pos = if kind == 0 { vec![] } else { resolve(&iv) };
             json!({"kind": kind, "lower": iv.lower, "upper": iv.upper, "len": len, "pos": usizes(&pos)})
         });
+        if [1, 2, 4, 5].contains(&it) {
+            log.oblige("pattern_iterator_inexact_size_hint");
+        }
     }
 }
 
@@ -52,21 +67,48 @@ fn run_one(log: &mut Log, tag: &str, text: &[u8], alpha: &[u8], k: u32, s: usize
             None => iv.occ(&sa),
         }
     };
+    let it0 = text.len() + k as usize + s;
     match own {
         0 => {
             let fm = FMIndex::new(&b, &l, &o);
-            searches(log, &fm, &resolve, pats);
+            searches(log, &fm, &resolve, pats, it0);
         }
         1 => {
+            // owned components; after half of the searches the index (and the sampled suffix array used
+            // to resolve positions) goes through a Serialize/Deserialize round trip
             let fm = FMIndex::new(b.clone(), l.clone(), o.clone());
-            searches(log, &fm, &resolve, pats);
+            let half = pats.len() / 2;
+            searches(log, &fm, &resolve, &pats[..half], it0);
+            let mut back: Option<(FMIndex<BWT, Less, Occ>, Option<SampledSuffixArray<BWT, Less, Occ>>)> = None;
+            let r = log.call("serde", json!({}), || {
+                let fm2: FMIndex<BWT, Less, Occ> = serde_json::from_str(&serde_json::to_string(&fm).unwrap()).unwrap();
+                let ssa2 = sampled.as_ref().map(|x| {
+                    serde_json::from_str::<SampledSuffixArray<BWT, Less, Occ>>(&serde_json::to_string(x).unwrap()).unwrap()
+                });
+                back = Some((fm2, ssa2));
+                json!({})
+            });
+            if r["st"] == "ok" {
+                let (fm2, ssa2) = back.unwrap();
+                let resolve2 = |iv: &Interval| -> Vec<usize> {
+                    match &ssa2 {
+                        Some(ssa) => iv.occ(ssa),
+                        None => iv.occ(&sa),
+                    }
+                };
+                searches(log, &fm2, &resolve2, &pats[half..], it0 + half);
+                log.oblige("serde_roundtrip_fmindex");
+                if s > 1 {
+                    log.oblige("serde_roundtrip_sampled_sa");
+                }
+            }
         }
         _ => {
             let fm = FMIndex::new(Arc::new(b.clone()), Arc::new(l.clone()), Arc::new(o.clone()));
             let fm2 = fm.clone(); // shared components
             let half = pats.len() / 2;
-            searches(log, &fm, &resolve, &pats[..half]);
-            searches(log, &fm2, &resolve, &pats[half..]);
+            searches(log, &fm, &resolve, &pats[..half], it0);
+            searches(log, &fm2, &resolve, &pats[half..], it0 + half);
         }
     }
 }
@@ -415,6 +457,56 @@ pub fn drive(log: &mut Log) {
     case += 1;
     if log.mine(case) {
         run_unary(log, "unary", 500, 3, 4, &[1, 7, 499, 500, 600]);
+    }
+
+    // (f) alphabets whose largest symbol is 33..=38 (around '$' = 36), with and without '$' in the
+    //     alphabet: rank-transformed texts over 0..=max with sentinel 0 -- all symbols used (34..39
+    //     distinct symbols) or only a few
+    for mx in 33..=38u8 {
+        for with_dollar in [false, true] {
+            if with_dollar && mx < 36 {
+                continue;
+            }
+            for variant in 0..log.opts.n(2, 4) {
+                case += 1;
+                if !log.mine(case) {
+                    continue;
+                }
+                let mut rng = Rng::new(seed, 23, case);
+                let mut alpha: Vec<u8> = (0..=mx).collect();
+                if !with_dollar {
+                    alpha.retain(|&c| c != b'$');
+                }
+                let letters: Vec<u8> = alpha.iter().cloned().filter(|&c| c != 0).collect();
+                let extra = rng.range(0, 60) as usize;
+                let mut text: Vec<u8> = if variant % 2 == 0 {
+                    let mut t = letters.clone(); // every symbol occurs: max + 1 (or max) distinct symbols
+                    t.extend(rng.seq(extra, &letters));
+                    for i in (1..t.len()).rev() {
+                        let j = rng.below(i as u64 + 1) as usize;
+                        t.swap(i, j);
+                    }
+                    t
+                } else {
+                    let few = vec![letters[0], *rng.pick(&letters), *letters.last().unwrap()];
+                    rng.seq(extra + 5, &few)
+                };
+                text.push(0);
+                let n = text.len();
+                let mut pats: Vec<Vec<u8>> = vec![vec![letters[0]], vec![*letters.last().unwrap()], vec![letters[letters.len() / 2]]];
+                for _ in 0..6 {
+                    let a = rng.below((n - 1) as u64) as usize;
+                    let l = rng.range(1, 6) as usize;
+                    pats.push(text[a..(a + l).min(n - 1)].to_vec());
+                }
+                let mut q = vec![*rng.pick(&letters)];
+                q.extend_from_slice(&text[0..3.min(n - 1)]);
+                pats.push(q);
+                pats.retain(|p| !p.is_empty());
+                run_one(log, "alsw", &text, &alpha, [1u32, 3][(case % 2) as usize], [0usize, 2, 3][(case % 3) as usize], (case % 3) as u8, &pats);
+                log.oblige("alphabet_max_symbol_sweep_around_dollar");
+            }
+        }
     }
 }
 
